@@ -23,6 +23,16 @@ FEATS = {"flatten", "pattern", "additional", "class_aliaser", "frozen", "alias",
          "undefined", "none_as_undefined", "fbod", "methods", "ser_if", "ser_default"}
 
 
+def props_constraint_on_object(t):
+    """minProperties / maxProperties attached to an object type (a recursive reference): a rule on the *input* keys, which
+    completion with defaults changes on the output side"""
+    from vf.spec import Ann, Ref, strip
+    for n in t.walk():
+        if isinstance(n, Ann) and ("min_props" in n.cons or "max_props" in n.cons) and isinstance(strip(n.t), (ObjectT, Ref)):
+            return True
+    return False
+
+
 def unique_over_objects(t):
     from vf.spec import Ann, Ref
     ObjectT_ = (ObjectT, Ref)  # a recursive reference is an object position too
@@ -216,6 +226,9 @@ def run(env):
             continue
         if unique_over_objects(t):
             env.count("abstain:uniqueness over objects completed with defaults")  # raw items distinct, completed items equal
+            continue
+        if props_constraint_on_object(t):
+            env.count("abstain:property-count constraint on an object completed with defaults")
             continue
         prog = Program(t)
         try:
